@@ -1,5 +1,5 @@
 From Burrow Require Import Http ConfigRead ConfigReadProofs.
-From BurrowGen Require Import ReadSets RespFields.
+From BurrowGen Require Import RouteTable ReadSets RespFields.
 Require Import List ZArith Bool String.
 Import ListNotations.
 
@@ -47,6 +47,46 @@ Theorem C18_burrow_noninterference :
   = respond to_string leaf_keys leaf_kids render ReadSets.table cfg' route ps b.
 Proof. exact (fun ts lk ld => noninterference ts lk ld ReadSets.table C18_reads_obligation). Qed.
 Print Assumptions C18_burrow_noninterference.
+
+(* per run: every registration of the regenerated route table is analysed and names a handler the reads pass really
+   walked (a handler that reads nothing is in ReadSets.walked; one the pass never entered is not), and the NotFound /
+   default handler's ServeHTTP was walked.  Without it the theorem above would hold VACUOUSLY for an unwalked handler
+   (its observation would be the package-wide rows only). *)
+Theorem C18_all_route_handlers_walked :
+  route_handlers_walked RouteTable.table RouteTable.router_opts ReadSets.walked = true.
+Proof. vm_compute. reflexivity. Qed.
+Print Assumptions C18_all_route_handlers_walked.
+
+(* hence the statement about the handlers that answer requests: every row of the route table names a walked handler, and
+   for it the response does not depend on password values; likewise the default (NotFound) handler *)
+Theorem C18_registered_routes_noninterference :
+  forall (m p : string) (segs : list seg) (h reg : string),
+  In (RtRow m p segs h reg) RouteTable.table ->
+  In h ReadSets.walked /\
+  forall (to_string : value -> bytes) (leaf_keys : value -> list bytes)
+         (leaf_kids : value -> list (bytes * option value))
+         (R : Type) (render : string -> params -> backend -> renv -> R)
+         (cfg cfg' : tree) (ps : params) (b : backend),
+  agree_except_passwords cfg cfg' ->
+  respond to_string leaf_keys leaf_kids render ReadSets.table cfg h ps b
+  = respond to_string leaf_keys leaf_kids render ReadSets.table cfg' h ps b.
+Proof.
+  exact (fun m p segs h reg I =>
+    conj (route_handlers_walked_row _ _ _ m p segs h reg C18_all_route_handlers_walked I)
+         (fun ts lk ld R render cfg cfg' ps b =>
+            noninterference ts lk ld ReadSets.table C18_reads_obligation R render cfg cfg' h ps b)).
+Qed.
+Print Assumptions C18_registered_routes_noninterference.
+
+Theorem C18_no_unanalysed_registration :
+  forall pos why, ~ In (RtUnknown pos why) RouteTable.table.
+Proof. exact (fun pos why => route_handlers_walked_no_unknown _ _ _ pos why C18_all_route_handlers_walked). Qed.
+Print Assumptions C18_no_unanalysed_registration.
+
+Theorem C18_default_handler_walked :
+  RouteTable.router_opts <> [] -> In "ServeHTTP"%string ReadSets.walked.
+Proof. exact (route_handlers_walked_default _ _ _ C18_all_route_handlers_walked). Qed.
+Print Assumptions C18_default_handler_walked.
 
 (* the response is the response of the configuration with every password replaced by anything -- in particular
    it is computed from the configuration with all passwords ERASED, so it can contain a password only by
